@@ -272,7 +272,7 @@ func optionSliceNotRetained(o *Out) {
 			}
 			before := safeEvaluate(ev, d)
 			opts[0] = bexpr.WithTagName(second)
-			opts[1] = bexpr.WithUnknownValue(3)
+			opts[1] = bexpr.WithUnknownValue("zzz")
 			bexpr.CreateEvaluator("J == 3", opts...)
 			after := safeEvaluate(ev, d)
 			o.meta.Cases++
